@@ -169,13 +169,31 @@ def draw_md(draw):
     return draw(st.sampled_from(MDS))
 
 
+def decode_md(md):
+    """JSON-able metadata -> python metadata; {"__array__": [n, seed, pos, delta]} stands for a numpy array of n
+    reproducible random entries with entry `pos` shifted by `delta` (relative)."""
+    import numpy as np
+
+    if isinstance(md, dict):
+        if "__array__" in md:
+            n, seed, pos, delta = md["__array__"]
+            a = np.random.default_rng(seed).uniform(0.1, 1.0, n)
+            if pos is not None:
+                a[pos % n] *= (1.0 + delta)
+            return a
+        return {k: decode_md(v) for k, v in md.items()}
+    if isinstance(md, list):
+        return [decode_md(v) for v in md]
+    return md
+
+
 def build_measure(b, itg, ufl):
     sid = itg.get("sid")
     if sid is None:
         sid = "everywhere"
     elif isinstance(sid, list):
         sid = tuple(sid)
-    md = itg.get("md") or None
+    md = decode_md(itg.get("md")) or None
     name = {"dx": "dx", "ds": "ds", "dS": "dS"}[itg["itype"]]
     return ufl.Measure(name, domain=b.mesh, subdomain_id=sid, metadata=md)
 
